@@ -447,16 +447,31 @@ fn counting(t: &mut Tape, ctx: &mut Ctx, maxlen: usize) -> CheckResult {
 
 fn components(t: &mut Tape, ctx: &mut Ctx, _maxlen: usize) -> CheckResult {
     ctx.class("group:components");
-    let n = t.range(0, 10);
-    let m = if n == 0 { 0 } else { t.range(0, 12) };
-    let src: Vec<usize> = (0..m).map(|_| t.choice(n)).collect();
-    let tgt: Vec<usize> = src
-        .iter()
-        .map(|&s| match t.weighted(&[4, 1]) {
-            1 => s, // self loop
-            _ => t.choice(n),
-        })
-        .collect();
+    let tournament = t.weighted(&[5, 1]) == 1;
+    let (n, src, tgt): (usize, Vec<usize>, Vec<usize>) = if tournament {
+        // balanced merge orders that make a union-by-rank forest deep (8..64 nodes), plus extras
+        ctx.class("tournament");
+        let k = t.range(3, 6);
+        let (n0, pairs) = crate::gen::tournament_pairs(t, k);
+        let extra = t.choice(4);
+        let n = n0 + extra;
+        let drop = t.choice(3); // leave a few classes apart
+        let keep = pairs.len().saturating_sub(drop);
+        (n, pairs[..keep].iter().map(|p| p.0).collect(), pairs[..keep].iter().map(|p| p.1).collect())
+    } else {
+        let n = t.range(0, 10);
+        let m = if n == 0 { 0 } else { t.range(0, 12) };
+        let src: Vec<usize> = (0..m).map(|_| t.choice(n)).collect();
+        let tgt: Vec<usize> = src
+            .iter()
+            .map(|&s| match t.weighted(&[4, 1]) {
+                1 => s, // self loop
+                _ => t.choice(n),
+            })
+            .collect();
+        (n, src, tgt)
+    };
+    let m = src.len();
     ctx.set_dump(format!("n = {n} edges = {:?}", src.iter().zip(&tgt).collect::<Vec<_>>()));
     ctx.sub("connected-components");
     let (cc, k) = <A<usize> as NaturalArray<K>>::connected_components(&mk(src.clone()), &mk(tgt.clone()), n);
